@@ -91,13 +91,20 @@ func workerDeadline(run *ev.Run, quickS, thoroughS int) time.Time {
 }
 
 // fanout runs n workers of this binary and merges their outputs.
-func fanout(run *ev.Run) *shardOut {
+func fanout(run *ev.Run) *shardOut { return fanoutN(run, 0) }
+
+// fanoutN runs exactly n workers when n > 0 (a check whose workers are split into fixed
+// configuration groups), otherwise min(16, CPUs) or VERIF_WORKERS.
+func fanoutN(run *ev.Run, fixed int) *shardOut {
 	n := runtime.NumCPU()
 	if n > 16 {
 		n = 16
 	}
 	if v := os.Getenv("VERIF_WORKERS"); v != "" {
 		fmt.Sscanf(v, "%d", &n)
+	}
+	if fixed > 0 {
+		n = fixed
 	}
 	bin := os.Getenv("VERIF_BIN")
 	if bin == "" {
